@@ -21,7 +21,7 @@ PROPS = {
     ),
     "C03": dict(
         cases_mod="CasesArith", check_fn="check_C03",
-        rule="i64 timestamps: both range ends +-1 and +-1 day, 0, +-1, +-86399/86400/86401, i64 extremes and the i64-overflow edge of the epoch shift, random in/out of range; pairs of DateTimes (equal instants under different offsets, adjacent days, straddling day 0, range ends) compared with ==, <, >=, cmp; Date and Time pairs. Non-trivial: every timestamp case; pairs whose operands differ.",
+        rule="i64 timestamps: both range ends +-1 and +-1 day, 0, +-1, +-86399/86400/86401, i64 extremes and the i64-overflow edge of the epoch shift, random in/out of range; pairs of DateTimes (equal instants under different offsets, adjacent days, straddling day 0, range ends) compared with ==, <, >=, cmp, also with the left operand obtained through + Time / + Duration (sums landing exactly on midnight included) instead of built directly; Date and Time pairs. Non-trivial: every timestamp case; pairs whose operands differ.",
         explanation="(incl. C03_order_since: the order agrees with the sign of every *_since difference, all seven units) Theorems C03_* hold for every i64 timestamp and every pair of values; figures describe the differential run.",
         trusted_base=TB_COMMON, assumptions=ASSUME_COMMON,
     ),
